@@ -105,6 +105,7 @@ def plan(tier, seed, kf_ids):
                                     "for every value of %s: to_num::<%s> is the IEEE-754 RNE result incl. subnormals and overflow to infinity" % (al, ft),
                                     timeout=600, inst="%s->%s" % (al, ft), bounds="all 2^%d values" % w))
                     jobs[-1].prio = 8
+    c.interleave(jobs)
     return {
         "feature": "c05",
         "jobs": jobs,
